@@ -68,9 +68,31 @@ def f3_mechanism(spec_before, spec_after, stale):
     return None
 
 
+def directed_spec(rnd):
+    """base model + an empty step in a journey whose pattern has other jobs, and jobs that live on another network / nowhere:
+    the history starts by giving the empty step its first job"""
+    spec = gen.base_spec()
+    O = spec["objects"]
+    from ..spec import obj, q
+    O["se"] = obj("UsageJourneyStep", user_time_spent=q(rnd.choice([2, 65]), "min"), jobs=["refs", []])
+    O["jfree"] = obj("Job", server=["ref", "srv2"], data_transferred=q(713, "kB"))
+    pos = rnd.choice([0, 1, 2])
+    O["uj1"]["params"]["uj_steps"][1].insert(pos, "se")          # uj1 belongs to up1 (network n1); j3 / jfree are not on n1 ... j3 is: use jfree or j-from-up2
+    first = rnd.choice([
+        {"op": "list", "obj": "se", "attr": "jobs", "method": "append", "args": ["jfree"], "kind": "fill_empty_step"},
+        {"op": "list", "obj": "se", "attr": "jobs", "method": "iadd", "args": [["jfree"]], "kind": "fill_empty_step"},
+        {"op": "set", "obj": "se", "attr": "jobs", "value": ["refs", ["jfree", "jfree"]], "kind": "fill_empty_step"},
+        {"op": "group", "kind": "fill_empty_step", "changes": [{"obj": "se", "attr": "jobs", "value": ["refs", ["jfree"]]},
+                                                               {"obj": "d1", "attr": "power", "value": ["q", 37, "W"]}]}])
+    return spec, first
+
+
 def run_case(case):
     rnd = case_rng(case["seed"], case["idx"], "C01")
     spec0 = None
+    forced = []
+    if case["idx"] % 20 == 7:
+        spec0, e0 = directed_spec(rnd); forced = [e0]
     if case["idx"] % 8 == 5:
         # a model with every builder class (services, GPU and cloud servers): the same oracle, edits also on builder inputs
         from .c17 import builder_spec
@@ -78,7 +100,7 @@ def run_case(case):
     h = Hist(rnd, case["tier"], spec=spec0)
     C = {"rebuild_comparisons": 0, "slots_compared": 0, "undo_checks": 0, "previous_total_checks": 0, "initial_total_checks": 0,
          "boundary_skipped": 0, "ref_refused": 0, "live_refused": 0, "build_failed": 0, "edits_applied": 0, "edits_changing_values": 0}
-    classes = set(gen.topo_classes(h.spec)) | ({"builder_model"} if spec0 is not None else set())
+    classes = set(gen.topo_classes(h.spec)) | ({"builder_model"} if (spec0 is not None and "web" in spec0["objects"]) else set())
     V = []
     if h.build_error:
         C["build_failed"] = 1
@@ -98,7 +120,9 @@ def run_case(case):
         if undo:
             e = edits.inverse(last[0], last[1]); e["kind"] = "undo"
         else:
-            if spec0 is not None and rnd.random() < 0.4:
+            if forced:
+                e = forced.pop(0)
+            elif spec0 is not None and "web" in h.spec["objects"] and rnd.random() < 0.4:
                 from .c17 import builder_edit
                 e = builder_edit(rnd, h.spec) or h.propose(case.get("mix"))
                 e.setdefault("kind", "builder_input")
